@@ -251,8 +251,11 @@ def led__arrow_operator(self: XPathToken, left: XPathToken) -> XPathToken:
         if next_token.label == 'kind test':
             raise next_token.wrong_syntax()
         self.parser.advance()  # Skip static evaluation of function arguments
+    elif next_token.symbol == '(':
+        # a parenthesized expression is parsed as usual (function calls with their arguments)
+        self[:] = left, self.parser.expression(80)
     else:
-        next_token.expected('(name)', ':', 'Q{', '(')
+        next_token.expected('(name)', ':', 'Q{')
         self.parser.parse_arguments = False
         self[:] = left, self.parser.expression(80)
         self.parser.parse_arguments = True
